@@ -276,6 +276,82 @@ theorem C12_mirror_sign (pt : Nat → V3 R) (cellPts : List (V3 R)) (g f : Face)
         Nat.cast_zero, Nat.cast_ofNat] <;> congr 1 <;> ring
   · cases h
 
+/-! ## similarity: the model is blind to absolute scale and position
+
+The clauses of the property are invariant under `x ↦ s·x + t` (`s > 0`) in exact arithmetic: area vectors are multiplied by
+`s²`, the quantity whose sign the code takes by `s³`, so the signed incidence matrix is unchanged. Hence an exact-rational model
+cannot distinguish a mesh with millimetre cells, or one located 10⁷ cell sizes from the origin, from its unit-size image at the
+origin: whatever the real code does differently there is a floating-point effect (a clamp such as `config.EPSILON`, cancellation),
+which is why the harness streams `absolute-scale` and `far-offset` are oracle + metamorphic streams and why the relation they assert
+("same facets, incidence, signs, normals and areas × `s²`") is the right one. -/
+
+/-- the similarity `x ↦ s·x + t` -/
+def simil (s : R) (t p : V3 R) : V3 R := V3.add (V3.smul s p) t
+
+omit [LinearOrder R] [IsStrictOrderedRing R] in
+/-- **C12_similarity_area.** Under `x ↦ s·x + t` the un-normalised normal the code computes and the doubled area vector of a
+    triangular / quadrilateral facet are multiplied by `s²` (a translation leaves them unchanged). -/
+theorem C12_similarity_area (s : R) (t a b c d : V3 R) :
+    normalDir ([a, b, c].map (simil s t)) = smul (s * s) (normalDir [a, b, c]) ∧
+    normalDir ([a, b, c, d].map (simil s t)) = smul (s * s) (normalDir [a, b, c, d]) ∧
+    areaVec2 ([a, b, c].map (simil s t)) = smul (s * s) (areaVec2 [a, b, c]) ∧
+    areaVec2 ([a, b, c, d].map (simil s t)) = smul (s * s) (areaVec2 [a, b, c, d]) := by
+  refine ⟨?_, ?_, ?_, ?_⟩ <;>
+    simp only [List.map, simil, normalDir, areaVec2, triCross, quadCrossC, V3.cross, V3.sub, V3.add, V3.smul,
+      Nat.cast_ofNat] <;> congr 1 <;> ring
+
+omit [LinearOrder R] [IsStrictOrderedRing R] in
+theorem sum_dot_simil (l : List (V3 R)) (s : R) (t n : V3 R) :
+    ((l.map (simil s t)).map fun q => dot q n).sum = s * (l.map fun q => dot q n).sum + (l.length : R) * dot t n := by
+  induction l with
+  | nil => simp
+  | cons a l ih =>
+    simp only [List.map_cons, List.sum_cons, List.length_cons, ih, Nat.cast_succ]
+    simp only [simil, V3.dot, V3.add, V3.smul]; ring
+
+/-- the sign quantity `(#cell·#facet)·(facet centre − cell centre)·n` is multiplied by `s` when cell and facet are mapped by
+    `x ↦ s·x + t` (any cell, any facet, any `n`), and is linear in `n` -/
+theorem signDot_simil (cellPts facetPts : List (V3 R)) (s k : R) (t n : V3 R) :
+    signDot (cellPts.map (simil s t)) (facetPts.map (simil s t)) (smul k n) = k * s * signDot cellPts facetPts n := by
+  have hk : ∀ (cp fp : List (V3 R)), signDot cp fp (smul k n) = k * signDot cp fp n := by
+    intro cp fp; simp only [signDot, V3.dot, V3.smul]; ring
+  rw [hk, signDot_eq, signDot_eq, sum_dot_simil, sum_dot_simil, List.length_map, List.length_map]
+  ring
+
+/-- **C12_similarity_sign.** For `s > 0` the sign the code computes for a (cell, triangular or quadrilateral facet) pair is
+    unchanged by `x ↦ s·x + t`: the signed incidence matrix of a uniformly scaled and translated mesh is that of the original
+    mesh (any cell type, any coordinates). -/
+theorem C12_similarity_sign (cellPts : List (V3 R)) (s : R) (hs : 0 < s) (t a b c d : V3 R) :
+    signOf (cellPts.map (simil s t)) ([a, b, c].map (simil s t)) = signOf cellPts [a, b, c] ∧
+    signOf (cellPts.map (simil s t)) ([a, b, c, d].map (simil s t)) = signOf cellPts [a, b, c, d] := by
+  obtain ⟨h3, h4, -, -⟩ := C12_similarity_area s t a b c d
+  have hpos : 0 < s * s * s := by positivity
+  have key : ∀ x : R, (s * s * s * x < ((0 : Nat) : R)) ↔ (x < ((0 : Nat) : R)) := by
+    intro x
+    simp only [Nat.cast_zero]
+    constructor
+    · intro h
+      by_contra hx
+      have : 0 ≤ s * s * s * x := mul_nonneg hpos.le (not_lt.mp hx)
+      linarith
+    · intro h; exact mul_neg_of_pos_of_neg hpos h
+  constructor
+  · unfold signOf
+    rw [h3, signDot_simil]
+    simp only [key]
+  · unfold signOf
+    rw [h4, signDot_simil]
+    simp only [key]
+
+/-- non-vacuity: millimetre cells in metres (`s = 2⁻¹³`), UTM-like offset; the top face of the unit cube keeps its `+1` -/
+example : (0 : Rat) < 1 / 8192 ∧
+    signOf ([⟨0,0,0⟩, ⟨1,0,0⟩, ⟨1,1,0⟩, ⟨0,1,0⟩, ⟨0,0,1⟩, ⟨1,0,1⟩, ⟨1,1,1⟩, ⟨0,1,1⟩].map
+        (simil (1 / 8192 : Rat) ⟨523456, 4123456, 123⟩))
+      ([⟨0,0,1⟩, ⟨1,0,1⟩, ⟨1,1,1⟩, ⟨0,1,1⟩].map (simil (1 / 8192 : Rat) ⟨523456, 4123456, 123⟩)) = 1 := by
+  refine ⟨by norm_num, ?_⟩
+  rw [(C12_similarity_sign _ (1 / 8192 : Rat) (by norm_num) ⟨523456, 4123456, 123⟩ ⟨0,0,1⟩ ⟨1,0,1⟩ ⟨1,1,1⟩ ⟨0,1,1⟩).2]
+  norm_num [signOf, signDot, normalDir, quadCrossC, vsum, V3.dot, V3.sub, V3.add, V3.smul, V3.cross]
+
 end Signs
 
 /-! ## metric identities -/
